@@ -1004,12 +1004,17 @@ theorem Inv.dialer_known {c : Cfg} {s : State} (h : Inv c s) (hc : c.Ok) {i k : 
   | info r => exact absurd hph (hP.notInfo r)
   | done => exact fromSent (hP.active c.m [] (by simp [hph, prog])).sent
 
-theorem inv_accept (c : Cfg) (hc : c.Ok) (s s' : State) (h : Inv c s) (j i k : Nat)
-    (hs : step c s (.accept j i k) = some s') : Inv c s' := by
+/-- What the atomic accept does in an invariant state. -/
+theorem accept_shape (c : Cfg) (hc : c.Ok) (s s' : State) (h : Inv c s) (j i k : Nat)
+    (hs : step c s (.accept j i k) = some s') :
+    s.pend j i k = true ∧ s.acc j = true ∧ ∃ kn',
+      ((j = 0 ∧ k = 0 ∧ kn' = ins i (s.known 0)) ∨ (¬(j = 0 ∧ k = 0) ∧ kn' = s.known j)) ∧
+      s' = { s with pend := upd3 s.pend j i k false, need := upd2 s.need j k (s.need j k - 1), conn := upd3 s.conn j i k (some ⟨i, j, k⟩), known := upd s.known j kn' } := by
   have hn2 := hc.n2
   simp only [step, stepAccDec] at hs
   by_cases hpre : s.acc j = true ∧ s.infl j = none ∧ s.pend j i k = true
   · obtain ⟨hacc, hinfl, hp⟩ := hpre
+    refine ⟨hp, hacc, ?_⟩
     have hf := h.pendFacts hp
     have hnp := h.need_pos hp hacc
     have hi0 : i ≠ 0 := by have := hf.dials.1; omega
@@ -1032,12 +1037,12 @@ theorem inv_accept (c : Cfg) (hc : c.Ok) (s s' : State) (h : Inv c s) (j i k : N
         funext x; simp only [upd_apply]; split
         · rename_i e; rw [e]
         · rfl
-      apply inv_accept_state c hc s s' h j i k hp hacc (s.known j) (Or.inr ⟨?_, rfl⟩)
-      · rw [← hs, e1, e2]
+      refine ⟨s.known j, Or.inr ⟨?_, rfl⟩, ?_⟩
       · rintro ⟨e, e'⟩
         subst e e'
         have := (h.leader.knownMem i).mp hmem
         simp [hi0, hf.anone] at this
+      · rw [← hs, e1, e2]
     · rw [if_neg hmem] at hs
       simp only [Option.some.injEq] at hs
       have hj0 : j = 0 := by
@@ -1066,10 +1071,15 @@ theorem inv_accept (c : Cfg) (hc : c.Ok) (s s' : State) (h : Inv c s) (j i k : N
             rw [hjt]; simp [joinTable, ek]
         · have : ¬ (p = 0 ∧ q = i ∧ k' = 0) := fun e' => e ⟨e'.1, e'.2.1⟩
           simp [e, this]
-      apply inv_accept_state c hc s s' h 0 i 0 hp hacc (ins i (s.known 0)) (Or.inl ⟨rfl, rfl, rfl⟩)
+      refine ⟨ins i (s.known 0), Or.inl ⟨rfl, rfl, rfl⟩, ?_⟩
       rw [← hs, e1, e3]
   · rw [if_neg hpre] at hs
     simp at hs
+
+theorem inv_accept (c : Cfg) (hc : c.Ok) (s s' : State) (h : Inv c s) (j i k : Nat)
+    (hs : step c s (.accept j i k) = some s') : Inv c s' := by
+  obtain ⟨hp, hacc, kn', hkn, he⟩ := accept_shape c hc s s' h j i k hs
+  exact inv_accept_state c hc s s' h j i k hp hacc kn' hkn he
 
 /-- Every atomic step preserves the invariant. -/
 theorem inv_step (c : Cfg) (hc : c.Ok) (s s' : State) (h : Inv c s) (e : Ev) (he : e.atomic = true)
